@@ -119,7 +119,7 @@ func ruleTB5() Rule {
 						return true
 					}
 					se, ok := call.Fun.(*ast.SelectorExpr)
-					if !ok || se.Sel.Name != "shift" {
+					if !ok || !strings.HasSuffix(calleeName(fi, call), "ast.Pos.shift") {
 						return true
 					}
 					v := core.FieldOf(fi, se.X)
